@@ -107,7 +107,7 @@ def check_case(ctx, case):
     name = case["gen"]
     kwargs = dict(case["kwargs"])
     state = random.getstate()
-    pretty_before = P._pretty_numbers
+    pretty_before = getattr(P, "_pretty_numbers", True)  # restored afterwards; the default mode if the flag is not exposed
     key = (name, case["seed"], repr(sorted(kwargs.items())), case["pretty"], case.get("n_frac"))
     try:
         random.seed(case["seed"])
